@@ -160,6 +160,10 @@ DRIVERS = {
                     describe="Unicode scalar values (boundaries + seeded sample; thorough: every scalar value) in a nuget name (escaped), a pypi name (raw) and a generic name"),
     "builder-ops": dict(trace="Trace_Stateless", quick=2500, thorough=80000,
                         describe="random builder call sequences with arbitrary Unicode arguments, build(), and the parse of the printed form"),
+    "lengths": dict(trace="Trace_Stateless", quick=1, thorough=2, chunk=1200,
+                    describe="length sweep: every component (type, namespace, name, version, key, value, subpath, checksum algorithm and hex) at every "
+                             "length 0..48 and around 64 / 128 (thorough: also 256 / 1024) with a plain, upper-case, escape-needing, non-ASCII or escaped last character; "
+                             "0..40 qualifiers and checksum entries in descending order; parsed (String, Purl) and built"),
     "big": dict(trace="Trace_Stateless", quick=1, thorough=1,
                 describe="structured inputs of 64 KiB, 256 KiB and 1 MiB (long components, many segments / qualifiers / separators / escapes)"),
     "type-strings": dict(trace="Trace_Stateless", quick=3000, thorough=200000,
@@ -178,17 +182,17 @@ PARSE_ALL = ["PARSE-SEP", "PARSE-PATH", "PARSE-QUAL", "PARSE-TYPED", "PARSE-NS",
 BUILD_ALL = ["BUILDER-G", "BUILDER-T", "BUILDER-SIM-G", "BUILDER-SIM-T", "BUILDER-SEQ"]
 PROPS = {
     "C01": dict(suites=PARSE_ALL + ["FORMAT-1", "TYPES-NAMES", "SYSTEM-G", "SYSTEM-T"], drivers=["garbage", "corpus"]),
-    "C02": dict(suites=PARSE_ALL, drivers=["corpus"]),
+    "C02": dict(suites=PARSE_ALL, drivers=["corpus", "lengths"]),
     "C03": dict(suites=["FORMAT-1", "FORMAT-2", "PARSE-QUAL", "PARSE-QUALS2", "BUILDER-G", "BUILDER-SEQ"], drivers=["scalars", "builder-ops"]),
     "C04": dict(suites=PARSE_ALL + BUILD_ALL + ["SHAPES", "SYSTEM-G", "SYSTEM-T"], drivers=["garbage", "builder-ops"]),
     "C05": dict(suites=PARSE_ALL + ["CHECKSUM"], drivers=["corpus", "garbage"]),
-    "C06": dict(suites=PARSE_ALL + ["QUAL", "QUAL-SIM", "CHECKSUM", "BUILDER-G", "BUILDER-T", "BUILDER-SIM-G", "FORMAT-1", "TYPES-LOOKUP", "TYPES-COMB", "TYPES-NAMES", "TYPES-STR", "SHAPES", "SYSTEM-T"], drivers=["garbage", "corpus", "scalars", "qual-ops", "checksum-ops", "builder-ops", "type-strings", "combined", "big"]),
+    "C06": dict(suites=PARSE_ALL + ["QUAL", "QUAL-SIM", "CHECKSUM", "BUILDER-G", "BUILDER-T", "BUILDER-SIM-G", "FORMAT-1", "TYPES-LOOKUP", "TYPES-COMB", "TYPES-NAMES", "TYPES-STR", "SHAPES", "SYSTEM-T"], drivers=["garbage", "corpus", "scalars", "lengths", "qual-ops", "checksum-ops", "builder-ops", "type-strings", "combined", "big"]),
     "C07": dict(suites=["PARSE-NS", "PARSE-SUB", "PARSE-PATH", "PARSE-SEP", "SPELL", "FAULT"], drivers=["garbage", "corpus"]),
     "C08": dict(suites=["TYPES-NAMES", "PARSE-TYPED", "BUILDER-T", "TYPES-COMB"], drivers=["scalars"]),
-    "C09": dict(suites=BUILD_ALL + ["FORMAT-1", "FORMAT-2", "SYSTEM-G", "SYSTEM-T", "TYPES-NAMES", "TYPES-STR"], drivers=["builder-ops"]),
-    "C10": dict(suites=PARSE_ALL + ["BUILDER-G", "BUILDER-T", "FORMAT-1", "TYPES-NAMES", "CHECKSUM", "SYSTEM-G", "SYSTEM-T"], drivers=["scalars", "corpus"]),
+    "C09": dict(suites=BUILD_ALL + ["FORMAT-1", "FORMAT-2", "SYSTEM-G", "SYSTEM-T", "TYPES-NAMES", "TYPES-STR"], drivers=["builder-ops", "lengths"]),
+    "C10": dict(suites=PARSE_ALL + ["BUILDER-G", "BUILDER-T", "FORMAT-1", "TYPES-NAMES", "CHECKSUM", "SYSTEM-G", "SYSTEM-T"], drivers=["scalars", "corpus", "lengths"]),
     "C11": dict(suites=["QUAL", "QUAL-SIM"], drivers=["qual-ops"]),
-    "C12": dict(suites=["CHECKSUM", "BUILDER-G", "PARSE-QUAL", "SPELL"], drivers=["checksum-ops", "corpus"]),
+    "C12": dict(suites=["CHECKSUM", "BUILDER-G", "QUAL", "PARSE-QUAL", "SPELL"], drivers=["checksum-ops", "corpus"]),
     "C13": dict(suites=["TYPES-STR", "PARSE-SEP", "PARSE-PATH", "SPELL", "BUILDER-G", "BUILDER-SIM-G", "FORMAT-1"], drivers=["garbage", "corpus", "builder-ops"]),
     "C14": dict(suites=["SHAPES"], drivers=[]),
     "C15": dict(suites=["TYPES-LOOKUP", "PARSE-TYPED", "FAULT", "PARSE-UPTYPE"], drivers=["type-strings"]),
@@ -196,7 +200,7 @@ PROPS = {
     "C17": dict(suites=[], drivers=[], extra="c17",
                 assumptions=["feature sets are compile-time: the harness is compiled once per set; TLC supplies the common case stream and validates the zipped transcripts, it does not enumerate configurations"]),
     "C18": dict(suites=["TYPES-COMB"], drivers=["combined", "corpus", "garbage"]),
-    "C19": dict(suites=["VALUES", "PARSE-QUAL", "PARSE-QUALS2", "PARSE-UPKEYS", "FORMAT-1", "QUAL"], drivers=["pairs"]),
+    "C19": dict(suites=["VALUES", "PARSE-QUAL", "PARSE-QUALS2", "PARSE-UPKEYS", "FORMAT-1", "QUAL", "BUILDER-G", "BUILDER-SEQ"], drivers=["pairs", "builder-ops"]),
 }
 
 ASSUMPTIONS_COMMON = [
